@@ -142,6 +142,35 @@ def tan_fixed_point():
     return 0.5 * (lo + hi)
 
 
+# floating-point resolution of the *gradient* (component-wise sum of |terms|): a gradient norm can only be judged
+# against a tolerance up to a few eps of this
+def q_gres(x, d):
+    return onp.abs(d["A"]) @ onp.abs(x) + onp.abs(d["b"]) + abs(d["c4"]) * onp.abs(x) ** 3
+
+
+def ros_gres(x, d):
+    return onp.array([2 * (abs(d["a"]) + abs(x[0])) + 4 * d["bb"] * abs(x[0]) * (abs(x[1]) + x[0] ** 2),
+                      2 * d["bb"] * (abs(x[1]) + x[0] ** 2)])
+
+
+def bar_gres(x, d):
+    with onp.errstate(invalid="ignore", divide="ignore"):
+        return onp.abs(x) + onp.abs(d["c"]) + d["mu"] * 2 * onp.abs(x) * (1 + x ** 2) / onp.abs(1 - x ** 2) ** 2
+
+
+def cos_gres(x, d):
+    return onp.array([1.0 + abs(d.get("t", 0.0))])
+
+
+GRAD_RESOLUTION = {"quartic": q_gres, "rosenbrock": ros_gres, "barrier": bar_gres, "cos1d": cos_gres}
+
+
+def grad_allowance(fam, x, d):
+    """absolute allowance on a gradient norm computed in floating point at x: 8(n+2) eps ||sum |terms| ||"""
+    g = GRAD_RESOLUTION[fam](onp.asarray(x, dtype=float), d)
+    return 8.0 * (len(g) + 2) * EPS * float(onp.linalg.norm(g))
+
+
 FAMILIES = {
     "quartic": (q_value, q_grad, q_resolution),
     "rosenbrock": (ros_value, ros_grad, ros_resolution),
